@@ -46,3 +46,22 @@ def inplace_discipline(prog: Program, rep: Report) -> None:
                            f"{e.kind} at {e.loc} on {e.root}" + (' (call chain: ' + ' -> '.join(e.via) + ')' if e.via else '')
                            + ('; a method without trailing underscore must leave its operands untouched' if not inplace_name else '; an in-place method may only modify its receiver'))
     rep.floor('C06-D3 methods', n, 90)
+    # after an in-place method the receiver's storage is its own: what is stored into self.physical is not (a view of) an argument
+    ci = prog.cls('fggs.indices', 'PatternedTensor')
+    k = 0
+    for name, m in sorted(ci.methods.items()):
+        if name in CTOR or m.is_static:
+            continue
+        S = eng.summaries[m]
+        pos = m.positional_params()
+        selfn = pos[0]
+        added = set()
+        for key, roots in S.growth.items():
+            if key in (f"P:{selfn}.physical", f"P:{selfn}.physical.*"):
+                added |= {r for r in roots if r.startswith('P:') and not r.startswith(f"P:{selfn}")}
+        if f"P:{selfn}.physical" in S.growth or name.endswith('_'):
+            k += 1
+            rep.ob(rule + ' no-aliasing', m.fq(), f"PatternedTensor.{name}: self.physical never becomes (a view of) an argument's storage", m.loc(), not added,
+                   'whatever is stored into self.physical is fresh or self\'s own storage' if not added else
+                   f"self.physical may be bound to {sorted(added)}: afterwards an in-place operation on either tensor changes the other")
+    rep.floor('C06-D3 no-aliasing methods', k, 8)
